@@ -102,11 +102,11 @@ def explainFalsePositive (src : String) (layout : Layout) (nodes : List Node) (g
     match g.secondary with
     | [o] =>
       -- which kind of key: a quoted / long-bracket string (the recorded raw-text finding), or anything else (numbers, names)
-      let isStrKey := fun (sp : Span) =>
-        let t := (((excerpt src layout sp).toList.dropWhile (· == ' ')).drop 1).dropWhile (· == ' ')
-        match t with
-        | c :: _ => c == '"' || c == '\'' || c == '['
-        | [] => false
+      -- (decided on the tree, not on the text: blanks and comments may sit between the bracket and the literal)
+      let isStrKey := fun (sp : Span) => nodes.any fun n => match n with
+        | .table _ fs => fs.toList.any fun f =>
+            DuplicateKeys.fieldRange f == sp && ((DuplicateKeys.fieldKey f 0).1.map (·.ty)) == some DuplicateKeys.KeyType.string
+        | _ => false
       if isStrKey o && isStrKey g.primary then
         s!"the keys of `{excerpt src layout o}` and `{excerpt src layout g.primary}` denote different values; the raw text between the delimiters is compared, whatever the quote kind"
       else
